@@ -54,6 +54,7 @@ fn dispatch(entry: &str, spec: &Value) -> Result<Option<String>, String> {
         "ws_framed" => ws::run(spec),
         "ss_chunk_limit" => compose::ss_chunk_limit(spec),
         "eih_chain" => compose::eih_chain(spec),
+        "ss_encode_capacity" => compose::ss_encode_capacity(spec),
         "address_roundtrip" => address::roundtrip(spec),
         "validate_timestamp" => c10::validate_timestamp(spec),
         "vmess_matching" => c10::vmess_matching(spec),
